@@ -123,7 +123,7 @@ static std::string workdir = ".";
 static Slot &S(const std::string &n) { auto &p = slots[n]; if (!p) p.reset(new Slot()); return *p; }
 
 static const int MAX_POINTS = 20000;   // grids beyond this size are dropped / refinements beyond it are cleared (keeps every case within its time budget)
-static void size_guard(TasmanianSparseGrid &g) { if (g.getNumNeeded() > MAX_POINTS) { g.clearRefinement(); throw std::runtime_error("driver: refinement too large for this check, cleared"); } }
+static void size_guard(TasmanianSparseGrid &g) { if (g.getNumNeeded() > MAX_POINTS || (g.isWavelet() && g.getNumNeeded() + g.getNumLoaded() > 2500)) {   /* wavelet grids rebuild a dense-ish interpolation matrix on every load/read */ g.clearRefinement(); throw std::runtime_error("driver: refinement too large for this check, cleared"); } }
 static uint64_t dig = 0;
 static void dmix(const void *p, size_t n) { const unsigned char *c = (const unsigned char *) p; for (size_t i = 0; i < n; i++) dig = mix(dig ^ c[i]) + 0x9e3779b97f4a7c15ULL; }
 
